@@ -30,7 +30,11 @@ fn opt<T: ToString, E>(r: Result<T, E>) -> String {
     }
 }
 
-pub fn run(op: &str, a: &[String]) -> String {
+fn main() {
+    tfh::main_loop(run);
+}
+
+fn run(op: &str, a: &[String]) -> String {
     match op {
         "new" => show(b(&a[0])),
         "add" => show(b(&a[0]) + b(&a[1])),
